@@ -15,7 +15,7 @@ from .. import cover, emmon, gen, ref
 LEVEL = 'exploration'
 JOBS = {'quick': 4, 'thorough': 16}
 REQUIRED_MONITORS = ('result_vs_fresh_map', 'shadow_comparison', 'rejection')
-REQUIRED_CLASSES = ('reference:exactly-collinear-anchors', 'mutate-construction:renumber', 'op:call', 'op:call-repeat', 'op:reject', 'op:mutate-ref', 'op:mutate-target', 'op:mutate-result',
+REQUIRED_CLASSES = ('reference:exactly-collinear-anchors', 'reject:other-residue-boundaries', 'mutate-construction:renumber', 'op:call', 'op:call-repeat', 'op:reject', 'op:mutate-ref', 'op:mutate-target', 'op:mutate-result',
                     'op:mutate-argument', 'multi-residue', 'shipped-pair', 'reject:other-atom-names', 'reject:non-molecule',
                     'call-after-reject', 'call-after-mutation', 'mutate-argument:partial', 'mutate-argument:rotate-about-own-atom',
                     'reject:same-foreign-object-again')
@@ -144,14 +144,30 @@ def foreign(rng, refm, tgtm, kind):
     if kind == 'other-size':
         return gen.make_molecule(refm.name, [a.name for a in refm][:-1], [e for e in edges if n - 1 not in e], pos[:-1],
                                  resnames=[a.resname for a in refm][:-1], resids=[a.gro_resid for a in refm][:-1])
+    if kind == 'other-residue-boundaries':
+        # same molecule name, same sequence of residue names, same atom names in the same order - but one atom belongs
+        # to the neighbouring residue (another species with the same flat description)
+        resnames = [a.resname for a in refm]
+        resids = [a.gro_resid for a in refm]
+        cuts = [j for j in range(1, n) if (resnames[j], resids[j]) != (resnames[j - 1], resids[j - 1])]
+        ok = [c for c in cuts if (c + 1 < n and (c + 1 not in cuts)) or (c - 1 > 0 and (c - 1 not in cuts))]
+        if not ok:
+            return foreign(rng, refm, tgtm, 'other-atom-names')
+        c = ok[int(rng.integers(0, len(ok)))]
+        if c + 1 < n and (c + 1 not in cuts):
+            resnames[c], resids[c] = resnames[c - 1], resids[c - 1]          # first atom of a residue joins the previous one
+        else:
+            resnames[c - 1], resids[c - 1] = resnames[c], resids[c]          # last atom of a residue joins the next one
+        return gen.make_molecule(refm.name, [a.name for a in refm], edges, pos, resnames=resnames, resids=resids)
     if kind == 'target-molecule':
         return tgtm
     if kind == 'residue':
         return refm.residues[0]
-    return {'int': 3, 'none': None, 'ndarray': pos, 'str': refm.name}[kind]
+    return {'int': 3, 'none': None, 'ndarray': pos, 'str': refm.name, 'numpy-scalar': np.float64(2.0), 'list-of-positions': pos.tolist()}[kind]
 
 
-REJECTS = ['other-atom-names', 'other-name', 'other-size', 'target-molecule', 'residue', 'int', 'none', 'ndarray', 'str']
+REJECTS = ['other-atom-names', 'other-name', 'other-size', 'target-molecule', 'residue', 'int', 'none', 'ndarray', 'str',
+           'other-residue-boundaries', 'numpy-scalar', 'list-of-positions']
 
 
 def run_case(ctx, case):
@@ -262,7 +278,7 @@ def run_case(ctx, case):
                 foreign_pool[kind] = x
             ctx.monitor('rejection')
             ctx.hit('op:reject')
-            ctx.hit('reject:' + (kind if kind in ('other-atom-names', 'other-name', 'other-size', 'target-molecule') else 'non-molecule'))
+            ctx.hit('reject:' + (kind if kind in ('other-atom-names', 'other-name', 'other-size', 'target-molecule', 'other-residue-boundaries') else 'non-molecule'))
             try:
                 emap(x)
                 ctx.violation(f'foreign-argument-accepted:{kind}', f'no error for a {kind} argument', witness={'history': history})
